@@ -82,10 +82,10 @@ def main(rep):
                 found = True
                 break
             if exe_model and il != model.get(cid):
-                rep.violation("correspondence", {"case": cid, "script": script.split("\n"), "implementation": il, "model": model.get(cid),
-                                                 "what": "implementation and model differ"}, found_input=False)
-                found = True
-                break
+                # a divergence is reported only if no monitor fires on any case (a concrete failing input wins)
+                rep.defer_divergence({"case": cid, "script": script.split("\n"), "implementation": il, "model": model.get(cid),
+                                                 "what": "implementation and model differ"})
+                continue
             validated += 1
         rep.cov["traces_validated_against_impl"] = validated
         for p in problems:
